@@ -102,9 +102,10 @@ CLAIMS = {
    text="Contracts on the THDM two-loop bosonic kernels and all their helpers (YF1, YFZ, YFW, YF2, YF3, T0, T1, dxlog, TX, T4-T6, T9, T10, fb, Fm0, Fmp, amu2L_B_nonYuk, "
         "amu2L_B_Yuk, amu2L_B_EWadd): on every path and for ALL mass ratios in [1e-6,1e4] with 3/5 < cw2 < 19/20 every denominator is non-zero and every logarithm/square root is in its "
         "domain -- each shift guard removes the pole it is meant for and no unguarded pole remains (with and, per function, without the assumption that two removable singularities do not "
-        "coincide); helpers are called inside their preconditions (modular); the guard in amu2L_B_EWadd only moves the argument (the unguarded temporary is dead downstream); dxlog's series "
+        "coincide); helpers are called inside their preconditions (modular); the guard in amu2L_B_EWadd only moves the argument (the unguarded temporary is dead downstream); the quark Barr-Zee functions FCWu, FCWd, f_CSu, f_CSd, phi_over_y "
+        "under their documented/physical preconditions (xu yd == xd yu; down-type quark lighter than half the W and H+- masses) and their call sites fuHp/fdHp; dxlog's series "
         "has the Taylor coefficients of its definition.  Counterexamples are replayed on the real code along the property's one-parameter path with the property's own 1%-band criterion.",
-   note=NOTE_COMMON + "NOT decided: the 1% band itself (size of the cancellations between pole terms after a shift of 1e-8) and everything about rounding; the fermionic two-loop, the one-loop THDM and "
+   note=NOTE_COMMON + "NOT decided: the 1% band itself (size of the cancellations between pole terms after a shift of 1e-8) and everything about rounding; the neutral fermionic two-loop, the one-loop THDM and "
         "the MSSM functions are covered for this property only through the loop-function contracts of C01/C02 (equal-argument branches).  T7/T8 (complex square roots) only through their call-site preconditions. "
         "Four fixed findings (Kaellen zeros, m_h = 2 m_W, guard onto the pole at m_h = m_Z, guard order in YF3).",
    technique="symbolic execution of the extracted kernels; side obligations (denominator != 0, log/sqrt domains) discharged by z3 NRA on all paths; modular call-site preconditions; counterexample replay on the real code", design='5 C11'),
